@@ -169,7 +169,7 @@ func runC19(r *vk.Run) {
 	r.Assume("filters reading __error__ are excluded from the commutativity law (typed filters write it)", "entries compared by (timestamp, line) and labels modulo __error__/__error_details__")
 
 	formats := []string{"json", "logfmt", "access", "packed", "plain", "mixed", "plain"}
-	r.Phase("laws", r.N(5000, 120000), func(c *vk.Case) {
+	r.Phase("laws", r.N(5000, 400000), func(c *vk.Case) {
 		rng := c.Rng
 		n := rng.Range(5, 30)
 		ds := genDataset(rng, formats[c.Idx%len(formats)], n, logT0)
